@@ -460,8 +460,14 @@ func (vs *ValidatorStore) GetEndBlockUpdate(ctx *ValidatorContext, req types.Req
 				}
 			}
 
-			// delete validator who's power is 0
-			if validator.Power <= 0 {
+			// delete validator who's power is 0: the record read above is the one of the previous
+			// block, so look at the current one (a stake of this block must not vanish with it),
+			// and keep the record while the validator can still be in Tendermint's set, because
+			// the purge below only finds validators that have a record
+			_, inLastCommit := vs.lastActive[string(validator.Address)]
+			current, errCurrent := vs.Get(validator.Address)
+			settled := validatorStatus != nil && !validatorStatus.IsActive && !requiredStatusUpdate && height > validatorStatus.Height+2
+			if validator.Power <= 0 && errCurrent == nil && current.Power <= 0 && !inLastCommit && settled {
 				vKey := append(vs.prefix, validator.Address.Bytes()...)
 				fmt.Println("Deleting :", validator.Address.String())
 				//TODO: validator delete will not properly delete the item because of state implementation
